@@ -1008,6 +1008,14 @@ func (ex *exec) conv(t_dst, t_src types.Type, x value) value {
 	if s, ok := x.(sym); ok {
 		bd, ok := ut_dst.(*types.Basic)
 		if !ok {
+			if _, isSlice := ut_dst.(*types.Slice); isSlice && s.k == types.String {
+				// the text of a JSON tree, turned back into bytes
+				for _, b := range ex.blobStrs {
+					if b.term == s.t {
+						return &jsonBlob{node: b.node}
+					}
+				}
+			}
 			panic(unsupported("conversion of symbolic %v to %s", s.k, t_dst))
 		}
 		dk := bd.Kind()
@@ -1041,6 +1049,9 @@ func (ex *exec) conv(t_dst, t_src types.Type, x value) value {
 			return x
 		}
 		if jb, ok := x.(*jsonBlob); ok {
+			if jb.node.hasSymLeaf() {
+				return ex.blobString(jb.node)
+			}
 			return jb.text()
 		}
 		// []byte or []rune -> string
